@@ -32,6 +32,8 @@ type Req struct {
 	// FsizeLimit: spawned runs only - the process runs under RLIMIT_FSIZE = this many bytes (prlimit), so a write that
 	// would grow a file beyond it is cut short and the next one fails (what a full disk or a quota does)
 	FsizeLimit int64 `json:"fsize_limit,omitempty"`
+	// HoldLock: replays only - the harness holds an exclusive flock on <cwd>/.ergo/lock while the command runs
+	HoldLock bool `json:"hold_lock,omitempty"`
 }
 
 type Res struct {
